@@ -339,6 +339,67 @@ func (v *view) oracleC01() {
 	}
 }
 
+// wireLimit names a limitation of the HTTP wire format that applies to this
+// call, or "". It only refines violation signatures so that the recorded
+// known findings stay specific; it never suppresses a clause.
+//   - streaming: the trailer frame is a protobuf message with string fields,
+//     so a '-bin' trailer value or a status message that is not valid UTF-8
+//     makes it unencodable;
+//   - unary: the status message travels in an HTTP header, where CR/LF
+//     become blanks and outer blanks are trimmed.
+func (v *view) wireLimit() string {
+	if v.r.Transport != THTTP || v.hReturn == nil {
+		return ""
+	}
+	msg := ""
+	switch v.hReturn.Err.Class {
+	case "status":
+		msg = v.hReturn.Err.Msg
+	case "error":
+		msg = v.hReturn.Err.Text
+	}
+	if v.r.Kind == KUnary {
+		switch {
+		case strings.ContainsAny(msg, "\r\n"):
+			return "header-status-crlf"
+		case msg != strings.TrimSpace(msg):
+			return "header-status-outer-blanks"
+		}
+		return ""
+	}
+	for _, ev := range v.tlrSets {
+		if ev.Seq > v.hReturn.Seq {
+			continue
+		}
+		for _, vals := range ev.MD {
+			for _, x := range vals {
+				if sanitize(x) != x {
+					return "trailer-unencodable-bin-value"
+				}
+			}
+		}
+	}
+	if sanitize(msg) != msg {
+		return "trailer-unencodable-status-message"
+	}
+	return ""
+}
+
+func outcomeShape(e *ErrRec) string {
+	switch e.Class {
+	case "nil", "EOF":
+		return "got-success"
+	case "status":
+		return "got-status"
+	case "panic":
+		return "got-panic"
+	}
+	if strings.Contains(e.Text, "unexpected EOF") {
+		return "got-unexpected-EOF"
+	}
+	return "got-error"
+}
+
 // C02 ------------------------------------------------------------------------
 
 type expStatus struct {
@@ -475,12 +536,18 @@ func (v *view) oracleC02() {
 		}
 		if what == "message" {
 			clause += "|" + msgClass(exp.msg)
-		} else if what == "code" && okTerminal(t, v.single) {
-			clause += "|client-sees-success|" + msgClass(exp.msg)
+		}
+		clause += "|" + outcomeShape(t.Err)
+		if wl := v.wireLimit(); wl != "" {
+			clause += "|" + wl
 		}
 		v.fail("C02", clause, "handler returned %s, expected client outcome %s, client got %s", v.hReturn.Err, exp, t.Err)
 		if v.hReturn.Err.Ctx != "" && what == "code" {
-			v.fail("C04", "handler-ctx-error-not-mapped", "handler returned the bare context error %q; client must see %s but got %s", v.hReturn.Err.Text, exp.code, t.Err)
+			c4 := "handler-ctx-error-not-mapped|" + outcomeShape(t.Err)
+			if wl := v.wireLimit(); wl != "" {
+				c4 += "|" + wl
+			}
+			v.fail("C04", c4, "handler returned the bare context error %q; client must see %s but got %s", v.hReturn.Err.Text, exp.code, t.Err)
 		}
 	}
 }
@@ -656,6 +723,9 @@ func (v *view) oracleC03() {
 	if okT {
 		tag = "on-success"
 	}
+	if wl := v.wireLimit(); wl != "" {
+		tag += "|" + outcomeShape(t.Err) + "|" + wl
+	}
 	// (iv)/(v) at the final status trailers and headers are all there
 	for i, o := range t.OptT {
 		if ok, why := mdContains(o, expT); !ok {
@@ -771,8 +841,11 @@ func (v *view) oracleC04() {
 			if ev.Err.Class == "panic" {
 				continue
 			}
-			// after the terminal outcome further receives may repeat it
-			v.fail("C04", "non-status-error|"+ev.Op+"|"+errShape(ev.Err), "context ended (%s at seq %d); %s at seq %d..%d returned the non-status error %s", v.rs.ctxCause, v.ctxSeq, ev.Op, ev.Seq, ev.RSeq, ev.Err)
+			clause := "non-status-error|" + ev.Op + "|" + errShape(ev.Err)
+			if wl := v.wireLimit(); wl != "" && v.hReturn.Seq < ev.RSeq {
+				clause += "|" + wl
+			}
+			v.fail("C04", clause, "context ended (%s at seq %d); %s at seq %d..%d returned the non-status error %s", v.rs.ctxCause, v.ctxSeq, ev.Op, ev.Seq, ev.RSeq, ev.Err)
 		}
 	}
 	// the handler never saw the cancellation
